@@ -416,6 +416,10 @@ def run(tier, seed, replay_path=None):
             em = decquery.EXTRA_MODELS.get(Path(path).name)
             for j in range(40 if deep else 6):
                 rargs.append((len(rargs), path, seed * 23 + len(rargs), rng.choice([0.05, 0.2, 0.5]), str(tmp), em))
+        # ... and a file of the harness' own whose parameter names begin like keywords in another letter case
+        own = str(Path(__file__).resolve().parent / "data" / "keywordlike.dec")
+        for j in range(60 if deep else 10):
+            rargs.append((len(rargs), own, seed * 23 + len(rargs), 0.5, str(tmp), None))
         real = pmap(build_real, rargs, chunk=1, limit=600)
         for g in real:
             o.traces += 1
